@@ -91,6 +91,30 @@ def p_switch_bwd_request(script, v):
     )
 
 
+def p_static_site_empty_callee(script, v):
+    # a static call site whose callee made no choices (concretely masked-off
+    # mask, zero-length map, function without choices) has an empty sub-map in
+    # the trace's own choice map, and the static assess handler raises
+    # MissingAddress for it
+    from sim.ref import inner_nodes, universe
+    from sim.script import unwrap
+
+    def may_be_empty(c):
+        c = unwrap(c)
+        if c["k"] == "mask":
+            return True
+        if c["k"] in ("vmap", "repeat") and c.get("n") == 0:
+            return True
+        return not universe(c)
+
+    def walk(node):
+        if node["k"] == "static" and any(may_be_empty(s["callee"]) for s in node["stmts"]):
+            return True
+        return any(walk(c) for c in inner_nodes(node))
+
+    return "MissingAddress" in v["detail"] and walk(script["programs"][0])
+
+
 def p_true(script, v):
     return True
 
